@@ -2,17 +2,19 @@ import Proofs.ParseMerge
 /-! Parsing back a whole section: every record set of a well-formed section is rebuilt, in order. -/
 namespace Model
 
+variable {Rs : RelSpec}
+
 /-- what the library's own constructors guarantee of a record set in an answer/authority/additional section of a
 non-update message, plus the field ranges `struct.pack` accepts -/
-structure RRsetOk (r : RRset) : Prop where
-  name : NameOk none r.name
+structure RRsetOk (Rs : RelSpec) (r : RRset) : Prop where
+  name : NameOk Rs none r.name
   rdtype : r.rdtype < 65536
   rdclass : r.rdclass < 65536
   ttl : r.ttl ≤ ConstsC03.ttlClampAbove
   notSpecial : r.rdtype ≠ ConstsC03.typeOPT ∧ r.rdtype ≠ ConstsC03.typeTSIG
   deleting : r.deleting = none
   nonempty : r.rdatas ≠ []
-  rds : ∀ rd ∈ r.rdatas, rd.valid ∧ shapeOf r.rdtype = rd.shape ∧ rdCovers r.rdtype rd = r.covers
+  rds : ∀ rd ∈ r.rdatas, rd.valid Rs ∧ shapeOf r.rdtype = rd.shape ∧ rdCovers r.rdtype rd = r.covers
   distinct : r.rdatas.Pairwise (fun a b => a.eqv b = false)
   single : r.rdtype ∈ ConstsC03.singletons → r.rdatas.length ≤ 1
 
@@ -20,22 +22,22 @@ theorem keyMatch_name_congr (a b : Name) (h : lowerName a = lowerName b) (rdclas
     (d : Option Nat) (x : RRset) : keyMatch a rdclass rdtype covers d x = keyMatch b rdclass rdtype covers d x := by
   simp [keyMatch, h]
 
-theorem keyMatch_sim (n : Name) (rdclass rdtype covers : Nat) (d : Option Nat) (x x' : RRset) (h : x'.sim x) :
+theorem keyMatch_sim (n : Name) (rdclass rdtype covers : Nat) (d : Option Nat) (x x' : RRset) (h : x'.sim Rs x) :
     keyMatch n rdclass rdtype covers d x' = keyMatch n rdclass rdtype covers d x := by
   obtain ⟨h1, h2, h3, h4, h5, _, _⟩ := h
   simp only [keyMatch]
-  rw [show lowerName x'.name = lowerName x.name from h1, h2, h3, h4, h5]
+  rw [show lowerName x'.name = lowerName x.name from Rs.toEqv h1, h2, h3, h4, h5]
 
 /-- all records of one record set -/
 theorem parseSection_rrset (cfg : PCfg) (horg : cfg.origin = none) (hnorr : cfg.oneRRPerRRset = false)
-    (r : RRset) (hr : RRsetOk r) (A post : Bytes) (t : CTable) (q : Bytes × CTable × Nat) (sec count i : Nat)
-    (st : PState) (L : List RRset) (hcur : st.cur = A.length) (hs : TableSound NameEqv A t)
+    (r : RRset) (hr : RRsetOk Rs r) (A post : Bytes) (t : CTable) (q : Bytes × CTable × Nat) (sec count i : Nat)
+    (st : PState) (L : List RRset) (hcur : st.cur = A.length) (hs : TableSound Rs.R A t)
     (hsec : st.section sec = L)
     (hnew : ∀ x ∈ L, keyMatch r.name r.rdclass r.rdtype r.covers none x = false)
     (h : rrsetExt A.length t none r = .ok q) :
     ∃ r', parseSection cfg false (A ++ q.1 ++ post) sec count q.2.2 i st =
         .ok (({ st with cur := A.length + q.1.length } : PState).setSection sec (L ++ [r']))
-      ∧ r'.sim r ∧ TableSound NameEqv (A ++ q.1) (t ++ q.2.1) ∧ q.2.2 = r.rdatas.length := by
+      ∧ r'.sim Rs r ∧ TableSound Rs.R (A ++ q.1) (t ++ q.2.1) ∧ q.2.2 = r.rdatas.length := by
   unfold rrsetExt at h
   have hlen : ¬ r.rdatas.length = 0 := fun h0 => hr.nonempty (List.length_eq_zero_iff.mp h0)
   have hwc : r.wireClass = r.rdclass := by simp [RRset.wireClass, hr.deleting]
@@ -73,7 +75,7 @@ theorem parseSection_rrset (cfg : PCfg) (horg : cfg.origin = none) (hnorr : cfg.
             rw [hsec, hnorr, rdCovers_of_sim hsim, hcov]
             apply sectionAdd_first
             intro x hx
-            rw [keyMatch_name_congr owner' r.name hown']
+            rw [keyMatch_name_congr owner' r.name (Rs.toEqv hown')]
             exact hnew x hx
           rw [hadd] at hp
           have hs1 := rrExt_sound r.name r.rdtype r.rdclass r.ttl none A t rd q2 hr.name (RData.valid_namesOk hv) hs h2
@@ -180,14 +182,14 @@ theorem parseSection_add (cfg : PCfg) (upd : Bool) (w : Bytes) (sec count : Nat)
 /-- all record sets of a section -/
 theorem parseSection_rrsets (cfg : PCfg) (horg : cfg.origin = none) (hnorr : cfg.oneRRPerRRset = false) (sec : Nat)
     (rs : List RRset) : ∀ (A post : Bytes) (t : CTable) (q : Bytes × CTable) (count i : Nat) (st : PState)
-      (L : List RRset), st.cur = A.length → TableSound NameEqv A t → st.section sec = L →
-      (∀ r ∈ rs, RRsetOk r) →
+      (L : List RRset), st.cur = A.length → TableSound Rs.R A t → st.section sec = L →
+      (∀ r ∈ rs, RRsetOk Rs r) →
       (∀ r ∈ rs, ∀ x ∈ L, keyMatch r.name r.rdclass r.rdtype r.covers none x = false) →
       rs.Pairwise (fun a b => keyMatch b.name b.rdclass b.rdtype b.covers none a = false) →
       itemsExt none A.length t (rs.map (Item.rr sec)) = .ok q →
       ∃ rs', parseSection cfg false (A ++ q.1 ++ post) sec count (rrCount rs) i st =
           .ok (({ st with cur := A.length + q.1.length } : PState).setSection sec (L ++ rs'))
-        ∧ SimList RRset.sim rs' rs ∧ TableSound NameEqv (A ++ q.1) (t ++ q.2) := by
+        ∧ SimList (RRset.sim Rs) rs' rs ∧ TableSound Rs.R (A ++ q.1) (t ++ q.2) := by
   induction rs with
   | nil =>
     intro A post t q count i st L hcur hs hsec _ _ _ h
